@@ -17,7 +17,7 @@ rsync -a --exclude .git /repo/ "$D/clean/"; rsync -a --exclude .git /repo/ "$D/m
 rm -rf "$D/mut/.git"
 ( cd "$D/mut" && go build ./... ) >"$D/build.log" 2>&1 || { echo "$ID/$M: DOES NOT BUILD"; head "$D/build.log"; exit 3; }
 suite=fail
-for i in 1 2 3; do ( cd "$D/mut" && go test -vet=off -count=1 -timeout 120s ./... ) >"$D/suite.log" 2>&1 && { suite=pass; break; }; done
+for i in 1 2 3 4 5 6; do ( cd "$D/mut" && go test -vet=off -count=1 -timeout 120s ./... ) >"$D/suite.log" 2>&1 && { suite=pass; break; }; done
 [ $suite = pass ] || { grep -E "^--- FAIL" "$D/suite.log" | grep -v TestPing | grep -q . || suite="pass(only TestPing flaked)"; }
 # demonstration
 demo_with=? ; demo_without=? ; democmd=""
